@@ -315,13 +315,31 @@ let rec insert_node (nd : node) (segs : n list list) (leaf : node) : node =
 let segs_of_rel (rel : string) : n list list =
   List.map bytes_of_string (List.filter (fun x -> x <> "") (String.split_on_char '/' rel))
 
+(* symbolic links of the current case's tree: (path below /R, target) *)
+let tree_links : (string * string) list ref = ref []
+let is_full_device (path : n list) : bool =
+  List.exists (fun (rel, t) -> t = "/dev/full" && string_of_bytes path = "/R/" ^ rel) !tree_links
+
 let build_tree (tree : string) : node =
+  tree_links := [];
   let base = NDir [ (bytes_of_string "R", NDir []) ] in
   if tree = "-" then base else
   List.fold_left (fun nd ent ->
     match String.split_on_char ':' ent with
     | ["d"; p] -> insert_node nd (bytes_of_string "R" :: segs_of_rel (string_of_bytes (bytes_of_hex p))) (NDir [])
     | ["f"; p; c] -> insert_node nd (bytes_of_string "R" :: segs_of_rel (string_of_bytes (bytes_of_hex p))) (NFile (spec_content c))
+    | ["l"; p; t] ->
+      (* a symbolic link to a file next to it: for everything the model looks at, a file with the target's content *)
+      let rel = string_of_bytes (bytes_of_hex p) in
+      let target = string_of_bytes (bytes_of_hex t) in
+      tree_links := (rel, target) :: !tree_links;
+      if target = "/dev/full" then insert_node nd (bytes_of_string "R" :: segs_of_rel rel) (NFile [])   (* exists; every write to it fails *)
+      else begin
+        let dir = (match String.rindex_opt rel '/' with Some i -> String.sub rel 0 i | None -> "") in
+        let trel = (if dir = "" then "" else dir ^ "/") ^ target in
+        let content = (match stat nd (bytes_of_string ("/R/" ^ trel)) with Some (NFile c) -> c | _ -> failwith "link target is no file") in
+        insert_node nd (bytes_of_string "R" :: segs_of_rel rel) (NFile content)
+      end
     | _ -> failwith "bad tree entry") base (String.split_on_char ',' tree)
 
 let snapshot_tree (root : node) : string =
@@ -335,7 +353,7 @@ let snapshot_tree (root : node) : string =
         let rel = if prefix = "" then string_of_bytes name else prefix ^ "/" ^ string_of_bytes name in
         (match x with
          | NDir _ -> out := (hex_of_bytes (bytes_of_string rel) ^ "/") :: !out; walk rel x
-         | NFile c -> out := (hex_of_bytes (bytes_of_string rel) ^ "=" ^ fp_text c) :: !out)) es in
+         | NFile c -> out := (hex_of_bytes (bytes_of_string rel) ^ "=" ^ (if List.mem_assoc rel !tree_links then "link" else fp_text c)) :: !out)) es in
   (match root with
    | NDir es -> (match lookup_entry (bytes_of_string "R") es with Some r -> walk "" r | None -> ())
    | _ -> ());
@@ -357,6 +375,7 @@ let run_srv toks =
     let mem = n_of_dec "1000000000000" in
     let out = ref [] in
     let abandoned = ref [] in   (* (client, path, clean) of receivers whose peer fell silent right after the handshake *)
+    let held = ref [] in        (* (client, (path, options, copies, check)) of downloads left waiting after the first reply *)
     let emit s = out := s :: !out in
     let reply_text acts =
       match List.filter_map (function AReply (l, p) -> Some (l, p) | _ -> None) acts with
@@ -367,6 +386,25 @@ let run_srv toks =
       | [] -> None in
     List.iter (fun step ->
       if step = "-" || step.[0] = 'w' then ()
+      else if step.[0] = 'c' then begin
+        (* the waiting download of this client is taken up: its worker has been there all the time *)
+        let c = Char.code step.[1] - 48 in
+        (match List.assoc_opt c !held with
+         | Some (path, o, rep, check) ->
+           held := List.remove_assoc c !held;
+           (match stat !root path with
+            | Some (NFile content) ->
+              let (datas, ph) = run_download o rep check content in
+              let got = List.concat (List.filteri (fun i _ -> i mod (int_of_n rep) = 0) (List.map snd datas)) in
+              let ndata = List.length datas in
+              let maxpay = List.fold_left (fun m (_, p) -> max m (List.length p)) 0 datas in
+              let nb = int_of_n (nblocks_of o.wo_blk content) in
+              let fb = (min (int_of_n o.wo_ws) nb - 1) * int_of_n rep + 1 in
+              emit (Printf.sprintf "dl=%s/%d/%d/%d/%s/x0/%s" (fp_text got) ndata maxpay fb (dec_of_n rep)
+                      (match ph with SDone OutOk -> "done" | _ -> "incomplete"))
+            | _ -> emit "dl=-")
+         | None -> emit "dl=-")
+      end
       else if step.[0] = 'x' then begin
         (* the abandoned worker of this client has exhausted its retries: clean-on-error removes whatever the path names now *)
         let c = Char.code step.[1] - 48 in
@@ -411,6 +449,8 @@ let run_srv toks =
             (match spawn with
              | Some (ASpawnSend (path, o, rep, check)) ->
                (match stat !root path with
+                | Some (NFile _) when first <> None && cont = "H" ->
+                  held := (c, (path, o, rep, check)) :: !held
                 | Some (NFile _) when first <> None && cont = "M" ->
                   (* the window is retransmitted when the negotiated timeout has elapsed *)
                   emit ("rt=" ^ dec_of_n o.wo_tmo_s)
@@ -437,6 +477,18 @@ let run_srv toks =
                 | _ ->
                   (* a directory: the worker fails on its first read; nothing is ever sent *)
                   if first <> None && cont = "D" then emit "dl=0:0000000000000000/0/0/0/0/x0/incomplete");
+               st := worker_ended !st src
+             | Some (ASpawnRecv (path, o, rep, clean)) when is_full_device path ->
+               (* the file opens, the first flush fails: no ACK for the first window, the worker ends and cleans up *)
+               if first <> None && String.length cont > 0 && cont.[0] = 'U' then begin
+                 let content = spec_content (String.sub cont 1 (String.length cont - 1)) in
+                 let nb = int_of_n (nblocks_of o.wo_blk content) in
+                 ignore rep;
+                 if content = [] then emit "ul=acked"
+                 else if cfg.v_single then emit ("ul=error:" ^ hex_of_bytes (List.filteri (fun k _ -> k < 4) (encode (Error (EIllegalOperation, msg_invalid_request)))))
+                 else emit (Printf.sprintf "ul=noack:%d" (min (int_of_n o.wo_ws) nb));
+                 if content <> [] && clean then root := remove_file !root path
+               end;
                st := worker_ended !st src
              | Some (ASpawnRecv (path, o, rep, clean)) ->
                let created = create_file !root path [] in
@@ -489,13 +541,23 @@ let srv_steps (steps : string) (impl : string) : steprec list * string =
   let toks = ref (words impl) in
   let next () = match !toks with t :: r -> toks := r; t | [] -> "" in
   let peek () = match !toks with t :: _ -> t | [] -> "" in
+  let holds = Hashtbl.create 3 in
   let recs = List.filter_map (fun step ->
-    if step = "-" || step.[0] = 'w' || step.[0] = 'x' then None else begin
+    if step = "-" || step.[0] = 'w' || step.[0] = 'x' then None
+    else if step.[0] = 'c' then begin
+      (* the taken-up download is judged like a download of the request that was left waiting *)
+      let c = Char.code step.[1] - 48 in
+      let x = next () in
+      match Hashtbl.find_opt holds c with
+      | Some dg -> Some { skind = 'q'; sclient = c; sdg = dg; scont = "D"; sreply = "reply=held"; sxfer = x }
+      | None -> None
+    end else begin
       let fields = String.split_on_char ':' (String.sub step 3 (String.length step - 3)) in
       let dg = match fields with f :: _ -> if f = "-" then [] else bytes_of_hex f | [] -> [] in
       let cont = match fields with _ :: x :: _ -> x | _ -> "-" in
       let r = next () in
       let x = if List.exists (starts_with (peek ())) ["dl="; "ul="; "rt="; "early="; "ra="] then next () else "" in
+      if cont = "H" then Hashtbl.replace holds (Char.code step.[1] - 48) dg;
       Some { skind = step.[0]; sclient = Char.code step.[1] - 48; sdg = dg; scont = cont; sreply = r; sxfer = x }
     end) (String.split_on_char ';' steps) in
   (recs, peek ())
@@ -567,9 +629,9 @@ let mon_srv prop case impl =
           (match decoded r with
            | Some (Wrq (name, _, _)) ->
              let path = join rdir (convert_file_path name) in
-             (* only a target that cannot be created explains an ERROR in the middle of an accepted upload *)
+             (* only a target that cannot be created (or written: the full device) explains an ERROR in the middle of an accepted upload *)
              (match create_file init path [] with
-              | Some _ -> bad "accepted-upload-aborted-by-the-server"
+              | Some _ -> if not (is_full_device path) then bad "accepted-upload-aborted-by-the-server"
               | None -> ())
            | _ -> ())) recs in
     (* every accepted download yields its own file, also when the endpoint ran other transfers before *)
@@ -592,6 +654,7 @@ let mon_srv prop case impl =
        (* nothing outside the receive directory changes; only send-directory files (or this run's uploads) are ever served *)
        let keep l = List.filter (fun e -> not (under rdir_rel e)) l in
        if keep init_entries <> keep final_entries then bad "filesystem-changed-outside-the-receive-directory";
+       if List.mem_assoc rdir_rel init_entries && not (List.mem_assoc rdir_rel final_entries) then bad "the-receive-directory-itself-was-removed";
        let servable = "0:0000000000000000" :: uploads @ List.filter_map (fun (p, f) -> if under sdir_rel (p, f) && f <> "/" then Some f else None) init_entries in
        List.iter (fun r ->
          if starts_with r.sxfer "dl=" && r.sxfer <> "dl=-" && not (starts_with r.sxfer "dl=error") then begin
@@ -756,6 +819,12 @@ let mon_srv prop case impl =
        (* download fidelity at the server's level: what a conformant client reassembles is the file *)
        check_downloads ()
      | "C13" ->
+       (* a write error fails the upload: nothing of it is acknowledged to the end *)
+       List.iter (fun r -> match decoded r with
+         | Some (Wrq (name, _, _)) when is_full_device (join rdir (convert_file_path name)) && r.sxfer = "ul=acked"
+                                         && String.length r.scont > 1 && spec_content (String.sub r.scont 1 (String.length r.scont - 1)) <> [] ->
+           bad "upload-acknowledged-to-the-end-although-every-write-failed"
+         | _ -> ()) recs;
        let clean = not (has_flag flags 'k') in
        (* an accepted upload that the peer aborts with ERROR: removed (clean-on-error) or kept as a prefix (here: empty) *)
        let relpath name = match kernel_segs (join rdir (convert_file_path name)) with
@@ -826,7 +895,12 @@ let mon_srv prop case impl =
                  | _ -> ())
               | [] -> ())
            | _ -> ()) recs;
-       if prop = "C15" then check_downloads ()
+       if prop = "C15" then check_downloads ();
+       if prop = "C04" || prop = "C07" then begin
+         (* no fault at all is the least of the fault patterns: an accepted transfer with a conformant client completes and ends *)
+         check_downloads ();
+         check_uploads ()
+       end
      | "C16" ->
        List.iter (fun r ->
          if starts_with r.sxfer "dl=" && ends_with r.sxfer "/done" then
@@ -1094,6 +1168,7 @@ let run_bin toks =
   | [_; "rt"; _; tmo] -> "rt=" ^ tmo
   | [_; "early"; _; _; ws] -> Printf.sprintf "first=%s early=0" ws   (* 5000 bytes: the first window is full *)
   | [_; "quiet"; flags; _] -> Printf.sprintf "created=1 gone=%d" (if String.contains flags 'k' then 0 else 1)
+  | [_; "slow"; _; _; _] -> "complete=1 after=0"
   | [_; "dup"; n; ws; _] ->
     (* C16: exactly N+1 copies of every block, nothing retransmitted on a loss-free link, content intact *)
     let n = int_of_string n and ws = int_of_string ws in
@@ -1218,6 +1293,24 @@ let mon_cfg_ip (ips : string) (argv : n list list) (res : string) : string =
     | a :: v :: r -> (List.mem (string_of_bytes a) ["-i"; "--ip-address"] && not (List.mem (tok v) known)) || bad (v :: r)
     | _ -> false in
   if starts_with res "ok" && bad argv then "fail:an-unparsable-address-was-accepted" else "pass"
+
+(* C17: a directory that does not exist makes the parse fail; [ex]: the case's oracle field (tokens for which Path::exists holds) *)
+let mon_cfg_exists (flags : string list) (ex : string) (argv : n list list) (res : string) : string =
+  let known = if ex = "-" then [] else String.split_on_char ',' ex in
+  let rec bad = function
+    | a :: v :: r -> (List.mem (string_of_bytes a) flags && not (List.mem (tok v) known)) || bad (v :: r)
+    | _ -> false in
+  if starts_with res "ok" && bad argv then "fail:a-directory-that-does-not-exist-was-accepted" else "pass"
+
+(* C17: a 16-bit setting takes no value beyond 65535 *)
+let mon_cfg_u16 (flags : string list) (argv : n list list) (res : string) : string =
+  let big v = (let v = if String.length v > 0 && v.[0] = '+' then String.sub v 1 (String.length v - 1) else v in
+               let v = (let i = ref 0 in while !i < String.length v - 1 && v.[!i] = '0' do incr i done; String.sub v !i (String.length v - !i)) in
+               String.length v > 5 || (String.length v = 5 && v > "65535")) in
+  let rec bad = function
+    | a :: v :: r -> (List.mem (string_of_bytes a) flags && big (string_of_bytes v)) || bad (v :: r)
+    | _ -> false in
+  if starts_with res "ok" && bad argv then "fail:a-value-beyond-65535-was-accepted-for-a-16-bit-setting" else "pass"
 
 (* C17 (client): the direction is that of the last -u / -d *)
 let mon_ccfg_mode (argv : n list list) (res : string) : string =
@@ -1451,6 +1544,8 @@ let run_mon (line : string) : string =
              | ["bin"; "early"; _; _; ws] ->
                if prop = "C08" then (if impl = Printf.sprintf "first=%s early=0" ws then "pass" else "fail:repeated-ACK-brought-the-retransmission-forward-(or-window-size-not-kept)")
                else "skip"
+             | ["bin"; "slow"; _; _; _] ->
+               if prop = "C08" then (if impl = "complete=1 after=0" then "pass" else "fail:repeated-ACK-right-after-a-slowly-sent-window-brought-a-retransmission") else "skip"
              | ["bin"; "quiet"; flags; _] ->
                if prop = "C07" || prop = "C13" then
                  (if impl = run_bin (words case) then "pass"
@@ -1464,7 +1559,7 @@ let run_mon (line : string) : string =
                   else "fail:directory-options-do-not-configure-the-served-directories")
                else "skip"
              | "bin" :: "xfer" :: _ -> if prop = "C14" then (if impl = "res=0 same=1" then "pass" else "fail:binaries-do-not-interoperate-byte-exactly") else "skip"
-             | "conc" :: _ -> if prop = "C12" || prop = "C05" || prop = "C09" then mon_conc prop case impl else "skip"
+             | "conc" :: _ -> if List.mem prop ["C12"; "C05"; "C09"; "C01"; "C02"; "C14"] then mon_conc prop case impl else "skip"
              | "pair" :: _ -> if prop = "C04" || prop = "C14" || prop = "C16" then mon_pair prop case impl else "skip"
              | ["cfgperm"; cwd; _; _; groups; _] when prop = "C17" ->
                (match mon_cfgperm impl with
@@ -1477,23 +1572,31 @@ let run_mon (line : string) : string =
                 | v -> v)
              | "cfgperm" :: _ -> if prop = "C17" then (match mon_cfgperm impl with "pass" -> mon_cfg_dup case impl | v -> v)
                                  else if prop = "C16" then mon_cfg_dup case impl else "skip"
-             | ["cfg"; cwd; _; ips; args] ->
+             | ["cfg"; cwd; ex; ips; args] ->
                if prop = "C17" then
                  (let argv = if args = "-" then [] else List.map untok (String.split_on_char ',' args) in
                   match mon_cfg_dup case impl with
                   | "pass" -> (match mon_cfg_fallback (string_of_bytes (untok cwd)) argv impl with
                       | "pass" -> (match mon_cfg_numeric ["-p"; "--port"; "--duplicate-packets"] argv impl with
-                          | "pass" -> mon_cfg_ip ips argv impl
+                          | "pass" -> (match mon_cfg_ip ips argv impl with
+                              | "pass" -> (match mon_cfg_exists ["-d"; "--directory"; "-rd"; "--receive-directory"; "-sd"; "--send-directory"] ex argv impl with
+                                  | "pass" -> mon_cfg_u16 ["-p"; "--port"] argv impl
+                                  | v -> v)
+                              | v -> v)
                           | v -> v)
                       | v -> v)
                   | v -> v)
                else if prop = "C16" then mon_cfg_dup case impl else "skip"
              | "ccfgperm" :: _ -> if prop = "C17" then mon_cfgperm impl else "skip"
-             | ["ccfg"; _; _; _; args] ->
+             | ["ccfg"; _; ex; _; args] ->
                if prop = "C17" then
                  (let argv = if args = "-" then [] else List.map untok (String.split_on_char ',' args) in
                   match mon_cfg_numeric ["-p"; "--port"; "-b"; "--blocksize"; "-w"; "--windowsize"; "-t"; "--timeout"] argv impl with
-                  | "pass" -> mon_ccfg_mode argv impl
+                  | "pass" -> (match mon_ccfg_mode argv impl with
+                      | "pass" -> (match mon_cfg_u16 ["-p"; "--port"; "-w"; "--windowsize"] argv impl with
+                          | "pass" -> mon_cfg_exists ["-rd"; "--receive-directory"] ex argv impl
+                          | v -> v)
+                      | v -> v)
                   | v -> v)
                else "skip"
              | "win" :: _ -> if prop = "C18" then (if String.trim (run_win (words case)) = String.trim impl then "pass" else "fail:differs-from-the-verified-queue-specification") else "skip"
